@@ -270,7 +270,7 @@ let p_op () = match next () with
 (* "nst <threads> <k>": a nested simulation built, run and dropped inside the handler (harness only);
    it has no effect on the enclosing simulation, so the model skips it *)
 let p_op_opt () = match !toks with
-  | "nst" :: _ -> ignore (next ()); ignore (nint ()); ignore (nint ()); None
+  | "nst" :: _ | "nsp" :: _ -> ignore (next ()); ignore (nint ()); ignore (nint ()); None
   | _ -> Some (p_op ())
 let p_script () = List.filter_map (fun x -> x) (plist p_op_opt)
 let p_model () =
